@@ -1,28 +1,98 @@
 # Table read by gen_manifest.py.  One entry per property: claimed (with the level text) or
-# not applicable (with the reason).  Keep in step with DESIGN.md sections 4 and 5.
+# not applicable (with the reason).  Keep in step with DESIGN.md sections 4, 5 and 9.
 
 NOTE_COMMON = ("Trusted: rustc/Kani MIR-to-goto translation, CBMC + CaDiCaL, the overlay step (verbatim copy of /repo/src plus "
-               "appended mod lines). Kani models the dev profile. Bounds, stubs and assumptions are listed per harness in the "
-               "evidence file; nothing is claimed outside them. Unwinding assertions on; timeout / out-of-memory / vacuous cover "
-               "= inconclusive (exit 2).")
+               "appended mod lines; #[cfg(test)] items compiled out). Kani models the dev profile (harnesses marked nodebug: "
+               "debug-assertions = false). Bounds, stubs and assumptions are listed per harness in the evidence file; nothing is "
+               "claimed outside them. Unwinding assertions on; timeout / out-of-memory / unsatisfied cover = inconclusive (exit 2). "
+               "A solver counterexample is reported only after it reproduces natively (concrete playback, or the public-API "
+               "replay tool for stubbed harnesses).")
 
-CLAIMED = {
-    "C14": ("DESIGN.md 4 C14",
+KERNEL = ("Kernel-level claim: the solver decides, for all values inside the stated bounds, the obligations of this property's "
+          "mechanisms that live in solver-reachable code; the end-to-end statement over whole histories is NOT established "
+          "(DESIGN.md 1, 9.3). ")
+
+ALL = {
+    "C01": ("DESIGN.md 4 C01, 9.3",
+            KERNEL + "Decided: the real commit() issues exactly W(H1) [flush if 2PC] W(H2) flush with byte-exact header images and "
+            "publishes nothing before the final flush; from ANY durable header state satisfying the stated invariant, every crash cut "
+            "and every torn subset (16-byte words; byte-granular in thorough) of god byte + overwritten slot is recovered by the real "
+            "header code to the old or the new commit, whole, and to the new one once commit returned; the real do_repair ends on a "
+            "verifying slot, falls back exactly when the primary does not verify without the 2PC flag, and clears the recovery flag "
+            "only then; non-durable commits touch no storage; clean shutdown clears the flag only when safe; ids never repeat.",
+            NOTE_COMMON + " Assumes A-TORN / injective checksum (xxh3 as uninterpreted function), A-COW, A-MERKLE (oracle for tree verification)."),
+    "C03": ("DESIGN.md 4 C03, 9.3",
+            KERNEL + "Decided: one write slot (a second writer blocks), ids strictly increasing, an observer at every lock release of "
+            "commit() / after non_durable_commit() reads the old or the new commit point, never a mixture, and nothing before the final "
+            "flush returned; deferred close is owned by exactly one side in both orders.",
+            NOTE_COMMON + " Schedules are sequentialised at lock releases (mutex sections atomic); 2 threads."),
+    "C04": ("DESIGN.md 4 C04, 9.3",
+            KERNEL + "Decided: every single-page primitive the tree algorithms are built from - leaf build/read, binary search, in-place "
+            "insert / remove / replace / remove_indices, branch routing, page-number order - equals a list model and an independent "
+            "decoder for ALL byte contents over a table of concrete shapes (64-byte pages, <= 3 pairs, lengths 0..=3, all four "
+            "fixed/variable width combinations incl. zero-width values).",
+            NOTE_COMMON + " Lengths, counts and positions are case-split (they become memcpy sizes); contents symbolic."),
+    "C08": ("DESIGN.md 4 C08, 9.3",
+            KERNEL + "Decided: CheckedBackend's failure latch for any 4 operations with a failure at any call; the real commit() with a "
+            "failure injected at any storage event returns Err, issues nothing afterwards and publishes nothing; with a failure latched it "
+            "refuses before any storage call; shutdown never clears the recovery flag after a failure; close() still runs once.",
+            NOTE_COMMON),
+    "C10": ("DESIGN.md 4 C10, 9.3",
+            KERNEL + "Decided against an independent decoder written from docs/design.md: every leaf and branch page the raw builders and "
+            "the in-place mutators emit decodes to exactly its input (type byte, counts, monotone in-range offsets, keys then values, "
+            "total length); leaf/branch checksums hash exactly [0,total_length); write_child_page rewrites exactly one child; commit "
+            "slot and database header field offsets and round trips.",
+            NOTE_COMMON + " Checksum function itself (xxh3 arithmetic) is outside: stub records the hashed range / uninterpreted function."),
+    "C11": ("DESIGN.md 4 C11, 9.3",
+            KERNEL + "Thin: record_alloc marks exactly a free block or refuses; new() yields the all-free state the rebuild starts from; "
+            "mark_page_allocated accepts a page number read from the file only if it lies inside its region, fits, and is entirely "
+            "free, and rejects everything else as corruption without panicking.",
+            NOTE_COMMON),
+    "C12": ("DESIGN.md 4 C12, 9.3",
+            KERNEL + "Decided: slot selection equals the documented table; any altered byte of a commit slot is detected and a corrupt "
+            "slot is never re-serialised as valid; header parsing is total on arbitrary 320 bytes and file length and an accepted layout "
+            "spans exactly the file; leaf/branch checksum functions are total on arbitrary pages; top-down verification "
+            "(RawBtree::verify_checksum) of depth <= 2 trees with arbitrary page contents returns true only if every page's checksum "
+            "can be computed and equals the stored one.",
+            NOTE_COMMON + " Injective-checksum assumption as C01."),
+    "C14": ("DESIGN.md 4 C14, 9.3",
             "Decided directly for the buddy allocator and its bitmaps: one inductive step of alloc, free, record_alloc, new and the "
             "queries from an ARBITRARY state satisfying the representation invariant R (every bitmap word symbolic), so histories of "
             "any length are covered by induction within the region-size bound: blocks handed out are in range and were entirely free, "
             "the free set changes by exactly the block, refusal only when no aligned free run exists, maximal merging (R re-established), "
-            "alloc;free is the identity. Region capacity 16 (all lengths 1..16) in the tiers, 128 in thorough. alloc_lowest, the "
-            "allocator-level codec and the region tracker's allocation path did not close and are NOT claimed (DESIGN.md).",
+            "alloc;free is the identity. Region capacity 16 (lengths 6, 11, 13, 16 quick; all 1..16 and capacity 128 thorough). "
+            "alloc_lowest, resize, the allocator-level codec and the region tracker did not close and are NOT claimed (DESIGN.md 9.1).",
             NOTE_COMMON + " Invariant R is assumed of the pre-state and asserted of the post-state; `new` establishes it."),
-    "C15": ("DESIGN.md 4 C15",
+    "C15": ("DESIGN.md 4 C15, 9.3",
             "Decided directly per built-in key type: compare(enc a, enc b) equals the value order (independent oracle: the type's own "
             "Ord / a hand-written lexicographic and UTF-8 oracle), decode(encode(v)) == v, and for a < b the separator s is a valid "
             "encoding with a <= s < b and len(s) <= len(a); min_encoded_key is least. Integers, bool, char, unit, byte arrays: all "
             "values. Byte strings / strings / Option / tuples / arrays of variable-width elements: all contents within the stated "
             "length bounds (<= 5 bytes quick, <= 9 thorough; composite element lengths case-split).",
             NOTE_COMMON + " String harnesses replace core::str::from_utf8 by an independent validator proved equal to it on the same bound (c15_utf8_stub_equiv)."),
+    "C17": ("DESIGN.md 4 C17, 9.3",
+            KERNEL + "Thin: only the type-and-kind gate. check_match against an arbitrary stored definition (kind, alignments, widths, "
+            "classification bytes, names) returns Ok only if everything agrees and the documented error variant otherwise; a "
+            "user-defined composite never aliases a built-in one; the legacy spelling is accepted.",
+            NOTE_COMMON + " The catalog as a map (create/rename/delete/list) is outside."),
+    "C19": ("DESIGN.md 4 C19, 6, 9.3",
+            KERNEL + "Differential against redb 3.0.0's own source (cargo cache): key encodings byte-identical, both comparators agree, "
+            "each version decodes the other's bytes, this version's shortened separators are ordered a <= s < b by 3.0.0's comparator "
+            "without panicking, leaf type names identical and mutually accepted, 3.0.0's composite names accepted by this version. "
+            "KNOWN FINDING (recorded, not repaired): built-in composite type names written by this version make 3.0.0 panic.",
+            NOTE_COMMON + " Slot / page / record codecs against 3.0.0 and whole-file behaviour are outside."),
+    "C20": ("DESIGN.md 4 C20, 9.3",
+            KERNEL + "Decided: CheckedBackend closes the backend exactly once (explicit close or Drop) and nothing reaches it afterwards; "
+            "Database::drop against a live write transaction, both orders, with and without a latched failure: exactly one close, not "
+            "before the writer ends; an accepted header layout spans exactly the file (all page addresses inside it); page address "
+            "ranges of distinct blocks are disjoint and inside their region.",
+            NOTE_COMMON + " I/O issued by tree code and the cache, and TransactionalMemory::new's open path, are outside."),
 }
+
+# properties whose quick check currently exits 0 on the unchanged tree
+ENABLED = ["C10"]
+
+CLAIMED = {k: v for k, v in ALL.items() if k in ENABLED}
 
 NOT_APPLICABLE = {
     "C02": "snapshot isolation lives in TransactionTracker's BTreeMaps, WriteTransaction's free-horizon code over system B-trees and the page cache's hash maps: none can be encoded within reach of Kani/CBMC (DESIGN.md 5, probes P18/P19)",
@@ -35,22 +105,8 @@ NOT_APPLICABLE = {
     "C18": "btree_cursor.rs is tree navigation with no page-local kernel of the cursor contract (DESIGN.md 5)",
 }
 
-# properties designed as claimable but whose checks are not yet registered: listed as not
-# applicable *for now* with the honest reason, and moved to CLAIMED as their checks land
-PENDING = {
-    "C01": "harnesses exist (commit event order, crash/recovery of the header) but are not yet registered as a passing check",
-    "C03": "harnesses exist (publish order, non-durable commit) but are not yet registered as a passing check",
-    "C04": "page-level leaf/branch harnesses not yet written",
-    "C08": "harnesses exist (CheckedBackend latch, commit under fault) but are not yet registered as a passing check",
-    "C10": "codec harnesses partly written, not yet registered",
-    "C11": "allocator rebuild harnesses partly written (record_alloc under C14), not yet registered",
-    "C12": "harnesses exist (slot table, checksum coverage, header totality) but are not yet registered as a passing check",
-    "C17": "check_match harness not yet written",
-    "C19": "differential crate against redb 3.0.0 not yet written",
-    "C20": "harnesses exist (close exactly once) but are not yet registered as a passing check",
-}
-for k, v in PENDING.items():
+for k in ALL:
     if k not in CLAIMED:
-        NOT_APPLICABLE[k] = "not claimed yet: " + v
+        NOT_APPLICABLE[k] = "not claimed yet: harnesses exist (DESIGN.md 9.3) but the check is not yet registered as passing on the unchanged tree"
 
 FIX_COMMITS = []
